@@ -21,4 +21,14 @@ CLAIMS = {
  "C11": pkt("ack-immutability monitor on raw state diffs: an acknowledgement key is written at most once and never changes or disappears; v2 ack keys require a receipt; async WriteAcknowledgement is called 0..n times per packet"),
  "C14": pkt("ordered-timeout monitor: after a timeout callback on an ORDERED end the stored channel state is CLOSED after every later transaction and no later send/recv/ack is accepted on that end"),
 }
+XFER_NOTE = "trusted base: bank module, SDK tx atomicity, light-client proof verification, ibctesting scaffolding; forward middleware exists only on the v1 transfer stack of testing/simapp; ledger model covers slash-free base denominations (C33 covers the others)"
+def xfer(level, text): return {"level": level, "technique": "runtime monitoring: multi-chain ICS-20 workload + independent ledger model and per-channel conservation identity checked after every block", "text": text, "note": XFER_NOTE}
+CLAIMS.update({
+ "C30": xfer("exploration", "after every transaction of every chain the per-channel identity escrow_X(ch)[D] = supply_Y(voucher) + in-flight(both directions) is evaluated from real balances and the truth log, plus native-supply constancy, over PRNG histories on 3 chains (v1, v2, alias, forwarding, failures, timeouts, duplicates)"),
+ "C31": xfer("exploration", "after every transaction the tracked total escrow of every denomination is compared with the sum of the real balances of all transfer escrow accounts of that chain (incl. forward-middleware refund moves); never negative"),
+ "C32": xfer("fault_enumeration", "failure matrix {error ack by invalid/blocked receiver/disabled receive, timeout by height/time} x {native, voucher} x {v1, v2 pair, alias}: an independent ledger model (debit on send, credit on successful receive, refund exactly once on failure) is compared with every tracked account's real balances after every transaction"),
+ "C33": xfer("exploration", "generated base denominations with '/' segments shaped like ports/channels/clients/numbers: A->B then the received voucher back over the same channel; the origin must release exactly the original denomination from that channel's escrow"),
+ "C43": xfer("fault_enumeration", "forward routes of depth 1-2 over a 3-chain triangle (incl. back over the arrival channel), each hop ending in success / error ack / timeout with 0-2 retries: ledger model + conservation identity after every block; at quiescence every route is either delivered or refunded exactly once and no intermediate account holds funds"),
+ "C49": xfer("exploration", "every committed packet must debit an account that signed the transaction (hostile sends naming another account as sender on v1/v2/alias); relays by arbitrary accounts may only credit the named receiver / refund the sender: enforced by comparing all tracked balances with the ledger model after every transaction"),
+})
 NOT_APPLICABLE = {}
